@@ -1101,6 +1101,8 @@ class Duration(AnyAtomicType):
 
         sign, y, mo, d, h, mi, s = match.groups()
         seconds = Decimal(s or 0)
+        if seconds > 2 ** 63:
+            raise OverflowError("seconds duration overflow")
         minutes = int(mi or 0) + int(seconds // 60)
         seconds = seconds % 60
         hours = int(h or 0) + minutes // 60
